@@ -46,6 +46,8 @@ def norm_dump(d):
     """the two equivalences XMI cannot express: "" vs null inside string arrays/lists (inline collections are
     already content in the coarse dump)"""
     d = copy.deepcopy(d)
+    if "views" in d:
+        d["views"] = sorted(d["views"], key=lambda v: v["name"])   # content is keyed by view name
     for k, e in d.get("fs", {}).items():
         if e and "feats" in e:
             e["feats"] = {n: norm_val(v) for n, v in e["feats"].items()}
